@@ -46,6 +46,7 @@ def main():
             r = allr[k]; mp = os.path.join(hdir, r["change"], "meta.json"); m = json.load(open(mp)) if os.path.exists(mp) else {}
             f.write("| %s | %s | %s | %s | %s | %s | %s |\n" % (r["change"], m.get("kind", ""), str(m.get("summary", ""))[:200].replace("|", "/").replace("\n", " "),
                                                        r["check"], r["seed"], r["result"], str(r["first_report"]).replace("|", "/")))
+    sh("git -C %s checkout -- lean/PdshVerif/Gen" % V)
     sh("rm -rf %s" % R); print("%d runs; not silent: %d" % (len(rows), len([r for r in rows if r[3] != "silent"])))
 if __name__ == "__main__":
     main()
